@@ -125,9 +125,14 @@ def derive_layout(repo, order='little'):
 # ---------------------------------------------------------------------------------------------------------------
 # the compiled statics, from the data facts (type-checked HIR literal trees)
 
+_CONSTS = {}       # named integer constants of the crate (path -> value), filled from the data facts: `Some(LATN)` is the number LATN denotes
+
+
 def lit_int(x):
     if isinstance(x, str) and x.isdigit():
         return int(x)
+    if isinstance(x, dict) and 'path' in x and x['path'] in _CONSTS:
+        return _CONSTS[x['path']]
     raise ValueError('non-literal %r' % (x,))
 
 
@@ -169,6 +174,10 @@ class CompiledTables:
         self.version = None
         self.direction = {}
         cands = []
+        _CONSTS.clear()
+        for name, d in facts.data.items():
+            if isinstance(d.get('v'), str) and d['v'].isdigit() and d['kind'].startswith('Const') and re.match(r'^(u8|u16|u32|u64|u128|usize)$', d['ty']):
+                _CONSTS[name] = int(d['v'])
         for name, d in facts.data.items():
             if not name.startswith('unic_langid_impl::'):
                 continue
